@@ -228,6 +228,28 @@ def _range_structure(s: str):
     return out
 
 
+_XR = r"(?:x|X|\*|0|[1-9][0-9]*)"
+_PART = r"[0-9A-Za-z-]+"
+_PARTIAL = rf"[v=\s]*{_XR}(?:\.{_XR}(?:\.{_XR}(?:-{_PART}(?:\.{_PART})*)?(?:\+{_PART}(?:\.{_PART})*)?)?)?"
+
+
+def npm_range_valid(text: str) -> bool:
+    """node-semver range grammar (README 'Range Grammar'): range-set ::= range ('||' range)*; range ::= hyphen | simple (' ' simple)* | '';
+    hyphen ::= partial ' - ' partial; simple ::= ('<' | '>' | '>=' | '<=' | '=' | '~' | '^')? partial"""
+    import re as _re
+
+    for alt in text.split("||"):
+        alt = alt.strip()
+        if alt == "":
+            continue
+        if _re.fullmatch(rf"{_PARTIAL}\s+-\s+{_PARTIAL}", alt):
+            continue
+        if all(_re.fullmatch(rf"(?:<=|>=|<|>|=|~|\^)?{_PARTIAL}", tok) for tok in alt.split()):
+            continue
+        return False
+    return True
+
+
 def r18_5_pragma_ranges(ctx):
     ctx.rule("R18.5", "a compiler-version pragma is judged as written: converting PEP 440 spellings inside an npm range rewrites the version tokens only - alternatives (||), comparator sets and hyphen ranges `A - B` keep their shape, each token being converted as it is when it stands alone")
     f = ctx.model.find_func("__convert_pep440_compiler_version", "pyteal.pragma.pragma")
@@ -238,7 +260,7 @@ def r18_5_pragma_ranges(ctx):
         val, _ = run_function(f.node, {"compiler_version": text}, lambda e, me: _re if u(e) == "re" else (_ for _ in ()).throw(Unknown()), f.fq)
         return val
 
-    ranges = ["0.27.0", "0.1.0 - 999.0.0", "0.27.0 - 0.28.0", "v0.26.0 - v0.27.0", ">=0.20.0 <0.30.0", "<0.5.0+local || >=1.0.0a9.post1.dev2", "1.0.0a1 || 2.0.0 - 3.0.0 || ^4", "~0.26.1 || 0.27.x", "*", "1.0.0rc1 - 1.0.0", ">=0.20.0 <0.30.0 || 1.x - 2.x"]
+    ranges = ["0.27.0", "0.1.0 - 999.0.0", "0.27.0 - 0.28.0", "v0.26.0 - v0.27.0", ">=0.20.0 <0.30.0", "<0.5.0+local || >=1.0.0a9.post1.dev2", "1.0.0a1 || 2.0.0 - 3.0.0 || ^4", "~0.26.1 || 0.27.x", "*", "1.0.0rc1 - 1.0.0", ">=0.20.0 <0.30.0 || 1.x - 2.x", "0.27.x", "0.x", ">=0.20.x", "0.27.X || 0.28.*", "1", "^0.26"]
     for r in ranges:
         try:
             got = conv(r)
@@ -250,6 +272,8 @@ def r18_5_pragma_ranges(ctx):
                     want.append(("set", tuple(conv(t) for t in alt[1])))
             ok = isinstance(got, str) and _range_structure(got) == want
             why = f"is converted to `{got}`, whose shape {_range_structure(got) if isinstance(got, str) else None} differs from the shape of the range as written with its tokens converted {want}"
+            if ok and not npm_range_valid(got):
+                ok, why = False, f"is converted to `{got}`, which is not a range of the npm grammar: the version check dies with a ValueError of the semver library instead of deciding"
         except Raised as r_:
             ok, why = False, f"raises {r_.exc_text[:50]}"
         ctx.check(ok, "R18.5", f"pragma-range[{r}]", f"`{r}` {why}", f.where, fact={"converted": got if ok else None})
